@@ -158,6 +158,11 @@ def deliver(wb, f, d, ft, tmpdir, stem="data"):
         except Exception:  # noqa: BLE001
             pass
         return b, kw, None
+    if d in ("path_stem", "path_stem_odd"):
+        p = os.path.join(tmpdir, f"census.{f}" if d == "path_stem" else f"census.{f.upper()}")
+        with open(p, "wb") as fh:
+            fh.write(raw)
+        return p, kw, None
     p = os.path.join(tmpdir, f"{stem}.{f}")
     with open(p, "wb") as fh:
         fh.write(raw)
